@@ -1372,6 +1372,8 @@ func (f *frame) atCallObligations(key string, args []SV, pos token.Pos) {
 					panic(r)
 				}
 			}()
+			f.atCallCtx = true
+			defer func() { f.atCallCtx = false }()
 			return f.evalContractBool(cs.Clause, f.curHeap, extra, nil), true
 		}()
 		if !ok {
